@@ -149,14 +149,14 @@ static std::vector<CheckDef> g_checks = {
             "liveness is bounded in scheduling steps under a fair fallback scheduler" } },
 };
 
-// Which simulation run index i of a check belongs to. The first 8 indices belong to the check's primary simulation (its rare huge
+// Which simulation run index i of a check belongs to. The first 10 indices belong to the check's primary simulation (its rare huge
 // cases live there); a simulation listed with a negative weight -q owns the next q indices (4q in the thorough tier) - a fixed quota
 // for expensive workloads that visit their cases round-robin by run index; all other indices are drawn by weight from seed_i.
 static const char *pick_sim(const CheckDef &cd, uint64_t seed_i, uint64_t i, bool thorough)
 {
-        if (i < 8)
+        if (i < 10)
                 return cd.sims[0].sim;
-        uint64_t base = 8;
+        uint64_t base = 10;
         int totw = 0;
         for (auto &sw : cd.sims) {
                 if (sw.weight < 0) {
